@@ -480,15 +480,36 @@ type ConcCase struct {
 	Writers int   `json:"writers"`
 	Incs    []int `json:"incs"`
 	Snaps   int   `json:"snaps"`
+	// Rounds: the scenario is repeated on that many fresh test scopes, the writers released together
+	// each time (the window in which several goroutines first use one name is narrow)
+	Rounds int `json:"rounds,omitempty"`
 }
 
 func genConc(t *rapid.T) ConcCase {
-	return ConcCase{Writers: rapid.IntRange(1, 6).Draw(t, "writers"), Incs: rapid.SliceOfN(rapid.IntRange(1, 50), 1, 8).Draw(t, "incs"), Snaps: rapid.IntRange(1, 6).Draw(t, "snaps")}
+	return ConcCase{Writers: rapid.IntRange(1, 6).Draw(t, "writers"), Incs: rapid.SliceOfN(rapid.IntRange(1, 50), 1, 8).Draw(t, "incs"), Snaps: rapid.IntRange(1, 6).Draw(t, "snaps"),
+		Rounds: rapid.SampledFrom([]int{1, 20, 100}).Draw(t, "rounds")}
 }
 
 func runConc(c ConcCase) (pbt.Outcome, error) {
+	rounds := c.Rounds
+	if rounds < 1 {
+		rounds = 1
+	}
+	var out pbt.Outcome
+	for r := 0; r < rounds; r++ {
+		o, err := runConcOnce(c)
+		out = o
+		if err != nil {
+			return out, err
+		}
+	}
+	return out, nil
+}
+
+func runConcOnce(c ConcCase) (pbt.Outcome, error) {
 	var errs pbt.Errs
 	var mu sync.Mutex
+	start := make(chan struct{})
 	ts := tally.NewTestScope("p", map[string]string{"a": "b"})
 	var total int64
 	for _, n := range c.Incs {
@@ -499,6 +520,7 @@ func runConc(c ConcCase) (pbt.Outcome, error) {
 		wg.Add(1)
 		go func(wi int) {
 			defer wg.Done()
+			<-start
 			s := ts.Tagged(map[string]string{"w": fmt.Sprint(wi % 2)})
 			for _, n := range c.Incs {
 				s.Counter("c").Inc(int64(n))
@@ -513,6 +535,7 @@ func runConc(c ConcCase) (pbt.Outcome, error) {
 		wg.Add(1)
 		go func() {
 			defer wg.Done()
+			<-start
 			snap := ts.Snapshot()
 			for _, e := range snap.Counters() {
 				if e.Name() == "p.c" {
@@ -531,6 +554,7 @@ func runConc(c ConcCase) (pbt.Outcome, error) {
 			}
 		}()
 	}
+	close(start)
 	wg.Wait()
 	snap := ts.Snapshot()
 	var sum int64
@@ -542,13 +566,52 @@ func runConc(c ConcCase) (pbt.Outcome, error) {
 	if sum != int64(c.Writers)*total {
 		errs.Addf("final snapshot total %d, want %d", sum, int64(c.Writers)*total)
 	}
+	// timers and histograms too: every value recorded through a handle obtained at that moment - the
+	// writers first use the same names at the same time - is in the final snapshot
+	for w := 0; w < 2; w++ {
+		writers := 0
+		for wi := 0; wi < c.Writers; wi++ {
+			if wi%2 == w {
+				writers++
+			}
+		}
+		if writers == 0 {
+			continue
+		}
+		wantT := map[time.Duration]int{}
+		for _, n := range c.Incs {
+			wantT[time.Duration(n)] += writers
+		}
+		gotT := map[time.Duration]int{}
+		for _, e := range snap.Timers() {
+			if e.Name() == "p.t" && e.Tags()["w"] == fmt.Sprint(w) {
+				for _, v := range e.Values() {
+					gotT[v]++
+				}
+			}
+		}
+		if fmt.Sprint(gotT) != fmt.Sprint(wantT) {
+			errs.Addf("final snapshot: timer p.t of scope w=%d holds values (with multiplicity) %v, recorded %v", w, gotT, wantT)
+		}
+		var hs int64
+		for _, e := range snap.Histograms() {
+			if e.Name() == "p.h" && e.Tags()["w"] == fmt.Sprint(w) {
+				for _, v := range e.Values() {
+					hs += v
+				}
+			}
+		}
+		if hs != int64(writers*len(c.Incs)) {
+			errs.Addf("final snapshot: histogram p.h of scope w=%d holds %d samples, recorded %d", w, hs, writers*len(c.Incs))
+		}
+	}
 	return pbt.Outcome{NonTrivial: c.Writers >= 2, Classes: []string{fmt.Sprintf("writers=%d", c.Writers)}}, errs.Err()
 }
 
 func TestConcurrent(t *testing.T) {
 	pbt.Main(t, pbt.Prop[ConcCase]{
 		ID: "C11", Name: "concurrent",
-		Rule: "free-running mode (real parallelism, -race): 1..6 writer goroutines record on all metric kinds in tagged and sub scopes of one test scope while 1..6 goroutines take snapshots; every concurrently observed counter value lies between 0 and the final total, the final snapshot shows the exact total; race detector on. Non-trivial: >=2 writers.",
-		Gen:  genConc, Run: runConc, Retries: 30, HangAfter: 60 * time.Second,
+		Rule: "free-running mode (real parallelism, -race): 1..6 writer goroutines record on all metric kinds in tagged and sub scopes of one test scope while 1..6 goroutines take snapshots; every concurrently observed counter value lies between 0 and the final total, the final snapshot shows the exact total; the final snapshot also holds every timer value (with multiplicity) and every histogram sample; the scenario is repeated on 1/20/100 fresh scopes with the goroutines released together; race detector on. Non-trivial: >=2 writers.",
+		Gen:  genConc, Run: runConc, Retries: 60, HangAfter: 120 * time.Second,
 	})
 }
